@@ -46,7 +46,7 @@ type c18Case struct {
 	// compact: the thorough tier enumerates more than a million cases, and every worker process holds the list
 	Base uint8
 	Fix  bool
-	Lbl  uint8 // 0 byte, 1 byte+csum, 2 cluster-limit, 3 le16, 4 le32
+	Lbl  uint8 // 0 byte, 1 byte+csum, 2 cluster-limit, 3 le16, 4 le32, 5 FAT entry := another used cluster
 	Len  uint8
 	Off  int64
 	Data [4]byte
@@ -415,6 +415,73 @@ func newC18Target(quick bool) *c18Target {
 								continue // of the block-size neighbourhood (511..513, 4095..4097) only 512 and 4096 are used here
 							}
 							t.cases = append(t.cases, mkC18Case(bi, o, pat, false, uint8(2+w/2)))
+						}
+					}
+				}
+			}
+		}
+		// FAT images: every entry of the first allocation table that is in use takes the number of every other cluster that
+		// is in use (a link back into its own chain, into the middle of another chain, to itself) - the values a byte-wise
+		// pattern only hits by luck. Geometry is read from the boot sector of the clean image.
+		if strings.HasPrefix(b.Kind, "fat") {
+			var ft int
+			fmt.Sscanf(b.Kind, "fat%d", &ft)
+			bs := b.Dev.Peek(int64(0), 64)
+			bps := int64(binary.LittleEndian.Uint16(bs[11:13]))
+			reserved := int64(binary.LittleEndian.Uint16(bs[14:16]))
+			fatSectors := int64(binary.LittleEndian.Uint16(bs[22:24]))
+			if fatSectors == 0 {
+				fatSectors = int64(binary.LittleEndian.Uint32(bs[36:40]))
+			}
+			if bps >= 512 && fatSectors > 0 {
+				fat := b.Dev.Peek(int64(0)+reserved*bps, int(fatSectors*bps))
+				entry := func(i int) uint32 {
+					switch ft {
+					case 12:
+						v := uint32(binary.LittleEndian.Uint16(fat[i*3/2:]))
+						if i%2 == 1 {
+							return v >> 4
+						}
+						return v & 0xFFF
+					case 16:
+						return uint32(binary.LittleEndian.Uint16(fat[i*2:]))
+					}
+					return binary.LittleEndian.Uint32(fat[i*4:]) & 0x0FFFFFFF
+				}
+				n := len(fat) * 8 / map[int]int{12: 12, 16: 16, 32: 32}[ft]
+				var used []int
+				for i := 2; i < n && len(used) < 48; i++ {
+					if v := entry(i); v >= 2 && v != map[int]uint32{12: 0xFF7, 16: 0xFFF7, 32: 0x0FFFFFF7}[ft] {
+						used = append(used, i)
+					}
+				}
+				for _, i := range used {
+					for _, j := range used {
+						if uint32(j) == entry(i) {
+							continue
+						}
+						off := int64(0) + reserved*bps
+						switch ft {
+						case 12:
+							o := int64(i * 3 / 2)
+							cur := binary.LittleEndian.Uint16(fat[o:])
+							var nv uint16
+							if i%2 == 1 {
+								nv = cur&0x000F | uint16(j)<<4
+							} else {
+								nv = cur&0xF000 | uint16(j)
+							}
+							pat := make([]byte, 2)
+							binary.LittleEndian.PutUint16(pat, nv)
+							t.cases = append(t.cases, mkC18Case(bi, off+o, pat, false, 5))
+						case 16:
+							pat := make([]byte, 2)
+							binary.LittleEndian.PutUint16(pat, uint16(j))
+							t.cases = append(t.cases, mkC18Case(bi, off+int64(i*2), pat, false, 5))
+						default:
+							pat := make([]byte, 4)
+							binary.LittleEndian.PutUint32(pat, uint32(j))
+							t.cases = append(t.cases, mkC18Case(bi, off+int64(i*4), pat, false, 5))
 						}
 					}
 				}
